@@ -234,7 +234,23 @@ func propC12(c *Ctx) int {
 			c.RunJob(j)
 		}
 	}
+	// exactness of bodies followed by trivia, and of Description free text ended by a directive
+	kb := int64(2)
+	if thorough {
+		kb = 4
+	}
+	for tpl := int64(0); tpl < 6; tpl++ {
+		j := base
+		j.Name, j.Fn, j.Params, j.MustReach = fmt.Sprintf("exact body tpl#%d +%dB trivia", tpl, kb), "HScanExactBody", map[string]int64{"tpl": tpl, "k": kb}, []string{"body-exact"}
+		c.RunJob(j)
+	}
+	for k := int64(1); k <= kb; k++ {
+		j := base
+		j.Name, j.Fn, j.Params, j.MustReach = fmt.Sprintf("exact description text k=%d", k), "HScanExactDescription", map[string]int64{"k": k}, []string{"description-exact"}
+		c.RunJob(j)
+	}
 	return c.Finish("model_checking", []string{
+		"exactness of bodies: 6 templates (TYPE/ENUM/regex/Body/Headers/Request bodies) followed by 2/4 symbolic trivia bytes (blanks, line ends, # comments): body lexeme = rendered body; Description free text of 1..2/4 arbitrary bytes ended by the next directive: Text lexeme = bytes between the keyword line and the next keyword",
 		fmt.Sprintf("well-formedness: every file of <= %d arbitrary bytes, and %d arbitrary bytes after each of %d state-witness prefixes; exactness: directive lines KW (P1)? (P2)? (annotation)? line-end for 14 keywords with symbolic parameter/annotation bytes (fields <= 3/4 bytes), bare and quoted, // and /* */, LF/CRLF/CR/EOF", maxN, k, NumC12Prefixes-1),
 		"lexeme grammar automaton and expected extents are computed in the harness (harness/scanner/zz_verif_c12.go, zz_verif_c12x.go)",
 		"schema/enum body extents are decided by jsight-schema-core (executed from its SSA); their content is outside the claim",
@@ -252,7 +268,17 @@ func propC11(c *Ctx) int {
 			Stubs: []string{"loc", "rune"}, PanicIsViolation: true, MaxPaths: 20000000, Timeout: 3 * time.Hour, ReplayCap: 50000,
 			MustReach: []string{"accepted", "rejected"}})
 	}
+	// longer sequences over kind subsets (HTTP / MACRO subset; JSON-RPC / INFO / SERVER subset)
+	subsetJobs := [][2]int64{{3, 1}}
+	if c.Tier == "thorough" {
+		subsetJobs = [][2]int64{{3, 2}, {4, 1}}
+	}
+	for _, sj := range subsetJobs {
+		c.RunJob(Job{Name: fmt.Sprintf("context events n=%d subset#%d", sj[0], sj[1]), Pkg: "core", Fn: "HContext", Params: map[string]int64{"n": sj[0], "subset": sj[1]},
+			Stubs: []string{"loc", "rune"}, PanicIsViolation: true, MaxPaths: 20000000, Timeout: 3 * time.Hour, ReplayCap: 50000})
+	}
 	return c.Finish("model_checking", []string{
+		"plus sequences of 3 (quick) / 4 (thorough) events over 12-kind subsets (harness/core/zz_verif_c11.go vC11Subsets)",
 		fmt.Sprintf("bound: every sequence of <= %d events, each a directive of any of the 31 kinds (with/without Path, followed or not by '(') or a ')', then end of file — kinds and flags are symbolic integers/booleans", maxN),
 		"reference = frozen context table + stack automaton (harness/core/zz_verif_spec.go, zz_verif_c11.go), never derived from directive/enumeration.go",
 		"the real processContext / closeLastExplicitContext / processEOF / processCurrentDirective are driven in the order core.next calls them; keyword text -> kind is covered by C13, text-level '(' placement by C12",
@@ -270,11 +296,22 @@ func propC10(c *Ctx) int {
 		c.RunJob(Job{Name: fmt.Sprintf("paste P=%d S=%d", sh[0], sh[1]), Pkg: "core", Fn: "HPaste", Params: map[string]int64{"np": sh[0], "ns": sh[1]},
 			Stubs: []string{"loc", "rune"}, PanicIsViolation: true, MaxPaths: 20000000, Timeout: 3 * time.Hour, ReplayCap: 50000, MustReach: []string{"same-tree"}})
 	}
+	// a directive FOLLOWING the paste (kinds over a 12-kind subset; all kinds in the thorough tier)
+	sub := int64(1)
+	if thorough {
+		sub = 0
+	}
+	c.RunJob(Job{Name: "paste P=1 S=1 F=1", Pkg: "core", Fn: "HPaste", Params: map[string]int64{"np": 1, "ns": 1, "nf": 1, "subset": sub},
+		Stubs: []string{"loc", "rune"}, PanicIsViolation: true, MaxPaths: 20000000, Timeout: 3 * time.Hour, ReplayCap: 50000, MustReach: []string{"same-tree"}})
+	// text level: call site x block x following directive x indentation x position of the MACRO definition, catalog digests compared
+	c.RunJob(Job{Name: "paste text-level", Pkg: "core", Fn: "HPasteText", Stubs: []string{"loc", "rune"}, PanicIsViolation: true, MaxPaths: 200000, Timeout: time.Hour,
+		MaxSteps: 5000000, MaxDepth: 1000, MustReach: []string{"same-catalog"}})
 	for m := int64(1); m <= 3; m++ {
 		c.RunJob(Job{Name: fmt.Sprintf("macro graph %d macros", m), Pkg: "core", Fn: "HMacroGraph", Params: map[string]int64{"macros": m},
 			Stubs: []string{"loc", "rune"}, PanicIsViolation: true, MaxPaths: 2000000, Timeout: time.Hour, MaxSteps: 3000000, MaxDepth: 400, MustReach: []string{"expanded"}})
 	}
 	return c.Finish("model_checking", []string{
+		"text level (HPasteText): 5 call sites x 9 blocks x 4 following directives x 2 indentations x MACRO defined before/after use (all symbolic, 720 combinations): the document with the block in place and the document with MACRO/PASTE must both be accepted with equal catalog digests (entities, order, names, annotations, schema text) or rejected with the same message class",
 		"relational harness: prefix P (<=1 directive) and body S (<=1 quick / 2 thorough directives), kinds/flags symbolic over all 31 kinds; run 1 scans P S in place, run 2 scans MACRO @m ( S ) and P PASTE @m; after collectMacro/checkMacroForRecursion/processPaste the trees must be equal and contain no MACRO/PASTE",
 		"assumed: the rewritten document is itself accepted by the scan (S legal in a MACRO body, PASTE admitted at the call site)",
 		"macro call graphs: <=3 macros with symbolic PASTE targets (defined / undefined / none): cycles of any length => recursion error, undefined => macro-not-found, acyclic => accepted",
@@ -284,13 +321,13 @@ func propC10(c *Ctx) int {
 }
 
 func propC19(c *Ctx) int {
-	for doc := int64(0); doc <= 2; doc++ {
+	for doc := int64(0); doc <= 3; doc++ {
 		c.RunJob(Job{Name: fmt.Sprintf("banned pair doc#%d", doc), Pkg: "core", Fn: "HBanned", Params: map[string]int64{"doc": doc},
 			Stubs: []string{"loc", "rune"}, PanicIsViolation: true, MaxPaths: 100000, Timeout: time.Hour, MaxSteps: 5000000, MaxDepth: 1000,
 			MustReach: []string{"rejected", "unaffected"}})
 	}
 	return c.Finish("model_checking", []string{
-		"bound: three fixed projects (HTTP kitchen sink with MACRO/PASTE/INCLUDE; JSON-RPC; directives only inside an unused MACRO body and only inside an included file) x banned set {b1,b2} symbolic over all 31 kinds",
+		"bound: four fixed projects (MACRO, PASTE and an unpasted macro body written only in INCLUDEd files; HTTP kitchen sink with MACRO/PASTE/INCLUDE; JSON-RPC; directives only inside an unused MACRO body and only inside an included file) x banned set {b1,b2} symbolic over all 31 kinds",
 		"oracle: some banned kind occurs in the project text => rejected with the not-allowed error located on a keyword of a banned kind; none occurs => same tree and catalog size as without the option",
 		contractLoc, contractRune,
 	}, map[string]interface{}{})
